@@ -131,6 +131,22 @@ reg('C11', 'exploration',
     'Stored values compared positionally on aligned arrays; version-1 files '
     'hold stride-1 double properties only.')
 
+reg('C18', 'exploration',
+    'controlled scheduler + instrumented threading module driving the real '
+    'controller at synchronisation-primitive granularity; offline checker '
+    'over the client-boundary history (exactly-once execution on the solver '
+    'thread, result delivery, pause protocol) and logical deadlock detection '
+    '(unfinished threads, none enabled); plus an uncontrolled real-thread '
+    'run as a cross-check',
+    'Held on every schedule explored: 3200 (quick) / 300000 (thorough) '
+    'worlds of 1-2 interface scripts x 3 scheduling strategies, > 97% of '
+    'them distinct interleavings (hash of the operation sequence).',
+    'Interleavings only at acquire / release / wait / notify granularity '
+    '(as the property states); scripts respect the documented protocol; a '
+    'schedule that exhausts its step budget is inconclusive; the '
+    'instrumented primitives are self-tested in every run (mutual '
+    'exclusion, re-entrancy, lost notify and ABBA deadlock must be found).')
+
 _pending = {
 }
 for _i in range(1, 21):
